@@ -297,7 +297,15 @@ def check_C05(ctx):
         triples |= tr
         states += len(g.states)
         transitions += len(g.edges)
-    s1, _ = _replay(ctx, binary, "c05", cover_behs, "cover", classify)
+    prefs = ["int", "str"]
+    if ctx.quick:
+        # every transition under both engines; the payload representation alternates over the behaviours
+        cparts = {r: [b for i, b in enumerate(cover_behs) if prefs[i % 2] == r] for r in prefs}
+    else:
+        cparts = {r: cover_behs for r in prefs}
+    csum = [_replay(ctx, binary, "c05", cparts[r], "cover-" + r, classify, env={"VALS_REFS": r})[0] for r in prefs]
+    s1 = {k: sum(x[k] for x in csum) for k in ("replays", "transactions", "steps")}
+    s1["engines"], s1["refinements"] = csum[0]["engines"], 1
     ctx.add_sample({"kind": "transition-cover behaviour", "steps": [{k: v for k, v in st.items() if k != "obs"} for st in cover_behs[len(cover_behs) // 3]["steps"][:10]]})
 
     sim_behs = []
@@ -318,6 +326,7 @@ def check_C05(ctx):
         raise Infra("simulated histories never exercised: %s" % sorted(need - set(ops)))
     via_ref = sum(1 for b in sim_behs for st in b["steps"] if st.get("root") in ("r", "q") and st["op"] in ("setP", "setX", "push", "writeI", "appendA", "delD"))
     s2, _ = _replay(ctx, binary, "c05", sim_behs, "sim", classify)
+    s2 = dict(s2, transactions=s2["transactions"] * s2["refinements"], steps=s2["steps"] * s2["refinements"])
     h0 = sim_behs[0]["steps"]
     ctx.add_sample({"kind": "simulated history (first steps, observations omitted)", "steps": [{k: v for k, v in st.items() if k != "obs"} for st in h0[:12]]})
     ctx.add_sample({"kind": "a predicted observation", "step": h0[min(8, len(h0) - 1)]})
@@ -337,7 +346,105 @@ def check_C05(ctx):
                     "references whose target is no longer reachable from a variable or from storage are not used (dangling references are outside the property)"])
 
 
+# ------------------------------------------------------------------------------------------ C51
+C51_STRUCTS = {
+    # kind: (module, cover cfg quick, cover cfg thorough, sim cfg, sim depth, variants)
+    "omap": ("MC_OrderedMap", "Cover_OrderedMap.cfg", "Cover_OrderedMap4.cfg", "Sim_OrderedMap.cfg", 3000, ["zero", "new"]),
+    "pset": ("PersistentSet", "Cover_PersistentSet.cfg", "Cover_PersistentSet.cfg", "Sim_PersistentSet.cfg", 1500, [""]),
+    "bimap": ("BiMap", "Cover_BiMap.cfg", "Cover_BiMap.cfg", "Sim_BiMap.cfg", 3000, [""]),
+    "itree": ("IntervalTree", "Cover_IntervalTree.cfg", "Cover_IntervalTree3.cfg", "Sim_IntervalTree.cfg", 1500, [""]),
+}
+C51_FILES = ["coll/OrderedMap.tla", "coll/MC_OrderedMap.tla", "coll/MC_Coll.tla", "coll/PersistentSet.tla", "coll/BiMap.tla",
+             "coll/IntervalTree.tla", "coll/Cover_OrderedMap.cfg", "coll/Cover_OrderedMap4.cfg", "coll/Sim_OrderedMap.cfg",
+             "coll/Cover_PersistentSet.cfg", "coll/Sim_PersistentSet.cfg", "coll/Cover_BiMap.cfg", "coll/Sim_BiMap.cfg",
+             "coll/Cover_IntervalTree.cfg", "coll/Cover_IntervalTree3.cfg", "coll/Sim_IntervalTree.cfg"]
+
+
+def check_C51(ctx):
+    _java_opts()
+    binary = ctx.build("vals")
+    nsim = 6 if ctx.quick else 60          # histories per structure (1 500 - 3 000 calls each)
+
+    def cover_job(kind):
+        module, cq, ct, _, _, variants = C51_STRUCTS[kind]
+        def run():
+            r, g, paths = _cover(ctx, C51_FILES, module, cq if ctx.quick else ct, "cover-" + kind, None, max_len=400)
+            behs = []
+            for path in paths:
+                steps = [g.edges[i][1] for i in path]
+                for v in variants:
+                    behs.append({"kind": kind, "variant": v, "steps": steps})
+            tr = set((g.edges[i][0], json.dumps({k: v for k, v in g.edges[i][1].items() if k != "st"}, sort_keys=True)) for i in range(len(g.edges)))
+            ctx.log("cover %s: %d states, %d transitions -> %d behaviours" % (kind, len(g.states), len(g.edges), len(behs)))
+            return kind, g, behs, tr
+        return run
+
+    def sim_job(kind):
+        module, _, _, cfg, depth, variants = C51_STRUCTS[kind]
+        def run():
+            r = ctx.tlc(C51_FILES, module, cfg, simulate=nsim, depth=depth + 1, tag="sim-" + kind, timeout=2400, count=False)
+            behs = []
+            for h in _unique_hists(r, depth):
+                for v in variants:
+                    behs.append({"kind": kind, "variant": v, "steps": h})
+            return kind, behs
+        return run
+
+    results = _parallel([cover_job(k) for k in C51_STRUCTS] + [sim_job(k) for k in C51_STRUCTS], width=4 if ctx.quick else 8)
+    covers, sims = results[:len(C51_STRUCTS)], results[len(C51_STRUCTS):]
+
+    def classify(f):
+        ctx.report(f.get("sig") or {"kind": f["kind"]}, "behaviour %d step %d: %s" % (f["id"], f["step"], f["msg"]), {"behaviour": f.get("beh")})
+
+    triples, cover_behs, states, transitions, per = set(), [], 0, 0, {}
+    for kind, g, behs, tr in covers:
+        cover_behs += behs
+        triples |= set((kind,) + t for t in tr)
+        states += len(g.states)
+        transitions += len(g.edges)
+        per[kind] = {"cover_states": len(g.states), "cover_transitions": len(g.edges)}
+    for i, b in enumerate(cover_behs):
+        b["id"] = 100000 + i
+    s1, _ = _replay(ctx, binary, "c51", cover_behs, "cover", classify)
+    sim_behs = []
+    for kind, behs in sims:
+        if len(behs) < max(1, nsim // 2):
+            raise Infra("simulation of %s produced too few histories: %d" % (kind, len(behs)))
+        sim_behs += behs
+        per[kind]["simulated_histories"] = len(behs)
+        per[kind]["calls_per_history"] = len(behs[0]["steps"])
+        ops = {}
+        for b in behs:
+            for st in b["steps"]:
+                ops[st["op"]] = ops.get(st["op"], 0) + 1
+                triples.add((kind, "sim", json.dumps(st, sort_keys=True)))
+        per[kind]["operations"] = ops
+    for i, b in enumerate(sim_behs):
+        b["id"] = 900000 + i
+    s2, _ = _replay(ctx, binary, "c51", sim_behs, "sim", classify)
+    for kind, g, behs, tr in covers:
+        ctx.add_sample({"kind": "transition-cover behaviour of " + kind, "steps": behs[len(behs) // 2]["steps"][:6]}, limit=8)
+    ctx.add_sample({"kind": "simulated history of the ordered map (first calls)", "steps": [b for b in sim_behs if b["kind"] == "omap"][0]["steps"][:8]}, limit=8)
+    return ctx.finish({
+        "states": states, "transitions": transitions,
+        "traces_validated_against_impl": s1["replays"] + s2["replays"],
+        "evaluations": s1["steps"] + s2["steps"],
+        "distinct_nontrivial": len(triples),
+        "rule": "distinct (abstract state, call) pairs of the four bounded models plus distinct (call, predicted result, predicted contents) labels of the simulated histories; result and full contents / iteration order compared after each",
+        "exhaustive": True,
+        "per_structure": per,
+    }, assumptions=["ordered map is exercised both as the zero value (as most of the code base uses it) and built with New",
+                    "interval tree positions are integers; where the code may return any of several entries the model gives the allowed set"])
+
+
 META = {
+    "C51": {
+        "level_text": "Exhaustive TLC exploration of bounded models of the four collections (ordered map: <=3-4 keys; persistent ordered set: 3 sets in any parent relation over 2 items; bimap: 4x4; interval tree: 3 points, <=2-3 entries) with their invariants and action properties (Set keeps the position, Delete keeps the order, views only grow, a child never changes its parent, Put adds exactly one entry, injectivity); every transition of those graphs and simulated histories of 1 500-3 000 calls over 16 keys are replayed by direct Go calls on common/orderedmap, common/persistent, common/intervalst and common/bimap; after every call the result and the complete contents (forward and backward iteration order, every set's view, all pairs in both directions, the bag of values) are compared.",
+        "level_note": "Trusted: TLC and the Go driver. Where the code may choose among entries (interval tree Get / Search) the model gives the allowed set and membership is checked.",
+        "technique": "TLA+ specs (spec/coll) model-checked with TLC; spec behaviours (transition cover + simulation) replayed by direct Go calls and compared after every call",
+        "design_ref": "DESIGN.md section 5 C51",
+        "engine": "E2 replay",
+    },
     "C05": {
         "level_text": "Exhaustive TLC exploration of two bounded configurations of Values.tla (a heap of struct / array / dictionary nodes with explicit deep copies; 2 Outer + 1 Inner variable, 2 steps per transaction; and 1 variable + 1 storage path over 2 transactions) with the invariants NoSharing (no two roots reach a common node, every node has one parent), NoGarbage, RefsAreLive, Shapes and the action property that a mutation changes the value of at most one root; every transition of those graphs and simulated 120-step histories (3 Outer + 2 Inner variables, 2 storage paths, references to variables, to nested members and to stored values, nesting struct > array/dictionary > struct > array) are replayed on the real runtime under interpreter and VM with 8-byte and 300-byte payloads; after every step the deep value of every variable, of what both references show and of every storage path is compared with the model, and after every transaction the stored values are re-read from the ledger.",
         "level_note": "Trusted: TLC, the Go renderer, the repo's test ledger as host. Bounded: array lengths <= 3, two dictionary keys; dangling references are not exercised.",
